@@ -10,7 +10,7 @@ for s in $ids; do
   git -C /repo apply /verif/seeded/$s/patch.diff || { echo "$s: patch does not apply"; miss=$((miss+1)); continue; }
   timeout 1500 ./check $p --tier quick >/tmp/recheck.out 2>&1; rc=$?
   git -C /repo checkout -- .
-  if { [ "$s" = "C04-r7" ] && [ $rc -eq 2 ] && grep -q "INCONCLUSIVE: no input finished" /tmp/recheck.out; } || { [ "$s" = "C05-r8" ] && [ $rc -eq 2 ] && grep -q "INCONCLUSIVE: .*did not finish its batch" /tmp/recheck.out; }; then echo "$s: reported as inconclusive (exit 2, a hang - by design not a violation)"
+  if { [ "$s" = "C04-r7" ] && [ $rc -eq 2 ] && grep -q "INCONCLUSIVE: no input finished" /tmp/recheck.out; } || { [ "$s" = "C04-r9" ] && [ $rc -eq 2 ] && grep -q "INCONCLUSIVE: .*took [0-9]* ms" /tmp/recheck.out; } || { [ "$s" = "C05-r8" ] && [ $rc -eq 2 ] && grep -q "INCONCLUSIVE: .*did not finish its batch" /tmp/recheck.out; }; then echo "$s: reported as inconclusive (exit 2, a hang - by design not a violation)"
   elif [ $rc -eq 1 ] && grep -q "^VIOLATION" /tmp/recheck.out; then echo "$s: caught ($(grep -m1 'sub-check' /tmp/recheck.out | sed 's/ *sub-check: //'))"; else echo "$s: NOT CAUGHT (exit $rc)"; miss=$((miss+1)); fi
 done
 echo "not caught: $miss"
